@@ -212,7 +212,10 @@ PROPS = {
         # `duplicate`: a set installed a second time has two epochs - whichever one the lookup keeps, the window
         # statement is false for the other installation (its proofs are honoured after expiry, or the newest set
         # is refused), so accepting a repeated set is this property's business as well as C03's
+        # using a proof must not move the bookkeeping the window is computed from (a set's recorded epoch, the epoch
+        # counter): a set whose age restarts when it signs is honoured beyond the window
         "policy": {"guards": ["retention", "latest_or_bypass", "duplicate"], "fields": [], "events": [], "rets": ["ValidateProof"],
+                   "act_fields": {"ApproveMessages": ["epoch", "epochOf", "hashByEpoch"], "ValidateProof": ["epoch", "epochOf", "hashByEpoch"]},
                    # "is honoured while at most the configured retention number of newer sets have been installed":
                    # a proof signed by EVERY member of a retained set must be accepted (which subsets suffice is C01's)
                    "complete_actions": ["ApproveMessages", "ValidateProof"], "complete_when": "full_proof"},
@@ -250,6 +253,8 @@ PROPS = {
     "C01": {
         "title": "Approvals need threshold-weight signatures from a live signer set",
         "policy": {"guards": ["signatures", "set_known"], "fields": [], "events": [], "rets": [],
+                   # checking a proof must not move what proofs are checked against (installed sets and their epochs)
+                   "act_fields": {"ApproveMessages": ["epoch", "epochOf", "hashByEpoch"], "ValidateProof": ["epoch", "epochOf", "hashByEpoch"]},
                    # "every honestly built proof ... is accepted": a refused honest proof is charged even when the control fails too
                    "complete_actions": ["ApproveMessages", "ValidateProof"]},
         "jobs": [
